@@ -6,11 +6,12 @@ sys.path.insert(0, V)
 props = [json.loads(l)['id'] for l in open(os.path.join(V, 'properties.jsonl'))]
 na_reasons = json.load(open(os.path.join(V, 'tools/not_applicable.json')))
 hooks_commits = json.load(open(os.path.join(V, 'tools/hook_commits.json'))) if os.path.exists(os.path.join(V, 'tools/hook_commits.json')) else []
+registered = set(json.load(open(os.path.join(V, 'tools/registered.json'))))   # only checks the lead has validated on the clean tree
 checks, na, served = [], [], []
 for p in props:
     path = os.path.join(V, 'checklib', p + '.py')
     m = None
-    if os.path.exists(path):
+    if p in registered and os.path.exists(path):
         mod = importlib.import_module('checklib.' + p)
         m = getattr(mod, 'MANIFEST', None)
     if m:
